@@ -403,14 +403,16 @@ def baseOf (tok : List Char) : Nat :=
   | c0 :: rest =>
     if c0 = '0' then
       (match rest with
-       | c :: _ => if toLower c = 'x' then 16 else if toLower c = 'b' then 2 else 8
+       | c :: _ => if c = 'x' ∨ c = 'X' then 16 else if c = 'b' ∨ c = 'B' then 2 else 8   -- `tolower(tok.lit[1])`
        | [] => 8)
     else 10
   | [] => 10
 
 /-- `strpbrk(tok.lit, base == 16 ? ".pP" : ".eE")`: the token is a floating constant. -/
-def hasFloatChar (tok : List Char) (base : Nat) : Bool :=
-  tok.any fun c => if base = 16 then c = '.' ∨ c = 'p' ∨ c = 'P' else c = '.' ∨ c = 'e' ∨ c = 'E'
+def isFloatChar (base : Nat) (c : Char) : Bool :=
+  if base = 16 then (c == '.' || c == 'p' || c == 'P') else (c == '.' || c == 'e' || c == 'E')
+
+def hasFloatChar (tok : List Char) (base : Nat) : Bool := tok.any (isFloatChar base)
 
 /-- the `TNUMBER` case of `primaryexpr`. -/
 def parseNumber (tok : List Char) : Lit :=
